@@ -7,6 +7,7 @@ import VerifModel.Model.BrierGen
 import VerifModel.Gen.TextHeader
 import VerifModel.Driver.Text
 import VerifModel.Gen.Agg
+import VerifModel.Gen.DateFilter
 /-
   Driver ops that EXECUTE the definitions regenerated from /repo by harness/translate_more.py, so that the
   translator itself is validated on every run against the real functions (same op line on both sides):
@@ -26,6 +27,9 @@ import VerifModel.Gen.Agg
                                   -> Gen.Agg.callByName; a decimal number that Gen.Agg.initRejects_quantile does not refuse
                                   -> the generated Quantile body at that level; EXC = NumPy raises, ERR = no such aggregator
                                                                                    (C15, stream agg.gen)
+    gendates <cfg> <times>        the verified times of a Data object built on ONE input with these times and the options
+                                  dates / tods of <cfg>, filtered with the GENERATED tests Gen.DateFilter.dateKeep / todKeep;
+                                  EMPTY = no time left                             (C03, stream data.gendates)
 -/
 namespace VerifModel.Driver.GenMore
 open VerifModel Proto
@@ -54,6 +58,17 @@ def handle (args : List String) : Option String :=
       | .ok u =>
         let x := commonValues (some u) [ls.map (·.id)]
         some (if x.isEmpty then "ERR" else showVec x)
+  | ["gendates", cfg, times] => do
+      let c ← Driver.Data.parseCfg? cfg none
+      let ts ← parseVec? times
+      let tv := commonValues c.times [ts]
+      let t1 := match c.dateStarts with
+        | some ds => tv.filter fun t => Gen.DateFilter.dateKeep t ds
+        | none => tv
+      let t2 := match c.tods with
+        | some hs => t1.filter fun t => Gen.DateFilter.todKeep t hs
+        | none => t1
+      some (if t2.isEmpty then "EMPTY" else showVec t2)
   | ["genbrier", name, p, o] => do
       let (p, o) := (← parseVec? p, ← parseVec? o)
       some (match Prob.brierGen floatTr name o p with
